@@ -431,6 +431,12 @@ def run_case(case, tape, ctx):
         # margin window may appear in either order)
         ok, why = well_synchronised(prog, rt['trace'], slack=MARGIN)
     if ok:
+        # ... and so must the union of both (each world may have silenced a
+        # different one of two routines that race, e.g. each pausing the
+        # other at the same instant)
+        ok, why = well_synchronised(prog, nrt['trace'] + rt['trace'],
+                                    slack=float('inf'))
+    if ok:
         stats['well-synchronised'] = 1
         if rt['errors'] or nrt['errors']:
             viol.add('C10-1', 'error-logged',
